@@ -8,6 +8,7 @@ package main
 //  * position bookkeeping of the lexer: next/backup keep loc = location of `end`.
 
 import (
+	"sort"
 	"fmt"
 	"strings"
 
@@ -100,6 +101,7 @@ func genC12(w *World, res *CheckResult) {
 		"NOT under contract: escape decoding (unescape, unescapeChar, scanString) and the numeric grammar of scanNumber — they need a string theory this engine does not have (strings are opaque); see DESIGN.md")
 	genLexerPositions(w, res)
 	genUnescapeFlow(w, res)
+	genAcceptSequence(w, res)
 }
 
 // genLexerPositions: next and backup maintain loc/prev consistently with end/width.
@@ -196,5 +198,69 @@ func genUnescapeFlow(w *World, res *CheckResult) {
 		o.Output = fmt.Sprintf("%d normalisation call(s), each on the parameter; the result is string(buf)", nrep)
 	} else {
 		o.Output = strings.Join(bad, "; ")
+	}
+}
+
+// genAcceptSequence: the lexer's scanning functions are sequences of
+// accept(set) / acceptRun(set) calls; their contract declares that sequence
+// (`schema accepts 0 xX ... eE +- *`, * = a run over the current digit set):
+// the skeleton of the token grammar (number = prefix digits ["." digits]
+// [("e"|"E") ["+"|"-"] digits]). The obligation compares the declared
+// sequence with the call sites in source order (syntactic).
+func genAcceptSequence(w *World, res *CheckResult) {
+	for name, ct := range w.Contracts {
+		var want []string
+		for _, sc := range ct.Schemas {
+			if len(sc) > 0 && sc[0] == "accepts" {
+				want = sc[1:]
+			}
+		}
+		if want == nil {
+			continue
+		}
+		o := &Obligation{Name: name + "/accept-sequence", Kind: "post", Expect: "unsat", Backend: "syntactic", Func: name, Meta: map[string]string{}, Status: "undecided"}
+		res.Obls = append(res.Obls, o)
+		fn := w.Func(name)
+		if fn == nil {
+			o.Status, o.Output = "missing", "function not found"
+			continue
+		}
+		res.Functions = append(res.Functions, name)
+		type site struct {
+			pos int
+			arg string
+		}
+		var sites []site
+		for _, b := range fn.Blocks {
+			for _, in := range b.Instrs {
+				c, ok := in.(*ssa.Call)
+				if !ok {
+					continue
+				}
+				f, ok := c.Call.Value.(*ssa.Function)
+				if !ok || (f.Name() != "accept" && f.Name() != "acceptRun") {
+					continue
+				}
+				arg := "*"
+				if k, ok := c.Call.Args[len(c.Call.Args)-1].(*ssa.Const); ok && k.Value != nil {
+					arg = strings.Trim(k.Value.ExactString(), "\"")
+				}
+				if f.Name() == "acceptRun" {
+					arg = "*"
+				}
+				sites = append(sites, site{int(c.Pos()), arg})
+			}
+		}
+		sort.Slice(sites, func(i, j int) bool { return sites[i].pos < sites[j].pos })
+		var got []string
+		for _, s := range sites {
+			got = append(got, s.arg)
+		}
+		if strings.Join(got, " ") == strings.Join(want, " ") {
+			o.Status = "discharged"
+			o.Output = "accept / acceptRun calls in source order: " + strings.Join(got, " ")
+		} else {
+			o.Output = "declared " + strings.Join(want, " ") + " — found " + strings.Join(got, " ")
+		}
 	}
 }
